@@ -7,6 +7,8 @@ require (
 	pgregory.net/rapid v1.3.0
 )
 
-require lukechampine.com/blake3 v1.0.0 // indirect
+require lukechampine.com/blake3 v1.0.0
+
+require github.com/mroth/weightedrand v0.2.1 // indirect
 
 replace github.com/TimothyStiles/poly => /repo
